@@ -39,7 +39,7 @@ Member(n, t, m, cap, vb, vs, js, pb, ps, jp, seed, label, rng) ==
   LET vals  == [j \in 1..m |-> Val(IF j = js THEN vs ELSE vb, n)]
       proms == [j \in 1..m |-> Prom(IF j = jp THEN ps ELSE pb, vals[j], n)]
   IN [n |-> n, t |-> t, m |-> m, cap |-> cap, vals |-> vals, proms |-> proms, seed |-> seed, label |-> label,
-      rng |-> rng, wit |-> NoWit, mut |-> NoMut, bseed |-> 0, rvar |-> 0, zb |-> 0, ppg |-> 0, wshift |-> 0,
+      rng |-> rng, wit |-> NoWit, mut |-> NoMut, bseed |-> 0, rvar |-> 0, zb |-> 0, ppg |-> 0, wshift |-> 0, eqb |-> 0,
       v |-> [n |-> n, t |-> t, cap |-> cap, proms |-> proms, seed |-> seed, label |-> label, pgH |-> 0, pgG |-> 0,
              commit |-> "same", cj |-> 0]]
 Plain(n, t, m, cap, seed) == Member(n, t, m, cap, "mid", "mid", 0, "none", "none", 0, seed, 0, "chacha")
@@ -105,12 +105,18 @@ FamWitness ==
       \* TWO positions out of range at once (equal or different excess)
       B2 == { One([Member(n, t, m, m, "mid", vs, j, "none", "none", 0, 0, 0, "chacha") EXCEPT !.vals[j2] = Val(vs2, n)], "VerifyOnly") :
                 n \in {4, 8, 32}, t \in {1}, m \in Ms \ {1}, j \in 1..7, j2 \in 2..8, vs \in {"over", "b63", "umax"}, vs2 \in {"over", "b63", "umax", "max"} }
+      \* two ADJACENT positions holding the same opening (same value, same blinding factors: one and the same commitment point)
+      \* under different promises: each position is still judged on its own
+      E == { One([[Member(n, t, m, m, "mid", "mid", 0, pb, ps, j, 0, 0, "chacha") EXCEPT !.eqb = j2] EXCEPT !.proms[j2] = Prom(ps2, Val("mid", n), n),
+                                                                                                     !.v.proms[j2] = Prom(ps2, Val("mid", n), n)], "VerifyOnly") :
+               n \in {4, 64}, t \in {1, 2}, m \in Ms \ {1}, j \in 1..8, j2 \in 2..8, pb \in {"none"}, ps \in {"none", "lt", "eq", "gt"}, ps2 \in {"none", "lt", "eq", "gt"} }
       \* all-zero blinding vectors (with value zero the commitment is the identity)
       Z == { One([Member(n, t, m, m, "mid", vs, j, "none", ps, j, 0, 0, "chacha") EXCEPT !.zb = j], "VerifyOnly") :
                n \in NsW, t \in {1, 2}, m \in Ms, j \in 1..4, vs \in {"zero", "one"}, ps \in {"none", "zero"} }
   IN {s \in B \cup W \cup W3 : s.members[1].wit.j <= s.members[1].m} \cup {s \in W2 : s.members[1].wit.j < s.members[1].m}
      \cup {s \in B2 : \E j \in 1..7, j2 \in 2..8 : j < j2 /\ j2 <= s.members[1].m /\ s.members[1].vals[j] # Val("mid", s.members[1].n) /\ s.members[1].vals[j2] # Val("mid", s.members[1].n)}
      \cup {s \in Z : s.members[1].zb <= s.members[1].m}
+     \cup {s \in E : s.members[1].eqb <= s.members[1].m /\ \E j \in 1..8 : j <= s.members[1].m /\ (j = s.members[1].eqb - 1 \/ j = s.members[1].eqb)}
 
 (***************************************************************************************************)
 (* alter (C05): one alteration of an accepted triple                                                *)
@@ -146,7 +152,12 @@ FamAlter ==
 (* promise (C07)                                                                                    *)
 (***************************************************************************************************)
 FamPromise ==
-  UNION { { One([mb EXCEPT !.v.proms[j] = Prom(pc, mb.vals[j], mb.n)], "VerifyOnly") :
+  \* many commitments with promises at late positions
+  { One([mb EXCEPT !.v.proms[j] = Prom(pc, mb.vals[j], mb.n)], "VerifyOnly") :
+      mb \in { Member(2, 1, 16, 16, "mid", "max", js, "none", ps, js, 0, 0, "chacha") : js \in {1, 9, 16}, ps \in {"lt", "eq"} } \cup
+              { Member(2, 1, 16, 16, "mid", "max", 3, "eq", "lt", 12, 0, 0, "chacha") },
+      j \in {9, 16}, pc \in {"none", "lt", "eq", "gt"} }
+  \cup UNION { { One([mb EXCEPT !.v.proms[j] = Prom(pc, mb.vals[j], mb.n)], "VerifyOnly") :
               j \in 1..mb.m, pc \in {"none", "zero", "lt", "eq", "gt", "max", "over", "umax"} } :
           mb \in { Member(n, t, m, m, "mid", vs, js, pb, ps, js, 0, 0, "chacha") :
                      n \in (IF Quick THEN {2, 64} ELSE AllN), t \in (IF Quick THEN {1} ELSE {1, 2}), m \in {1, 2, 4}, js \in (IF Quick THEN {1, 4} ELSE {1, 2, 4}),
@@ -185,6 +196,10 @@ Kind(n, t, kd) ==
     [] kd = "dgc"  -> LET mb == Plain(n, t, 1, 1, 0) IN [mb EXCEPT !.v.pgG = 200]    \* only the cached encoding of G_1 differs
     [] kd = "v32"  -> Plain(n, t, 32, 32, 0)
     [] kd = "v64"  -> Plain(n, t, 64, 64, 0)
+    [] kd = "dupX"  -> [[Plain(n, t, 1, 1, 0) EXCEPT !.bseed = 7] EXCEPT !.mut = [kind |-> "scalar", slot |-> "d1", j |-> 0, how |-> "plus1"]]   \* the same triple with one response altered
+    [] kd = "dupS"  -> [Plain(n, t, 1, 1, 1) EXCEPT !.bseed = 7]                      \* the same SEEDED triple ...
+    [] kd = "dupSL" -> LET mb == [Plain(n, t, 1, 1, 1) EXCEPT !.bseed = 7] IN [mb EXCEPT !.v.label = 1]   \* ... handed in with another context
+    [] kd = "dupSw" -> LET mb == [Plain(n, t, 1, 1, 1) EXCEPT !.bseed = 7] IN [mb EXCEPT !.v.seed = 2]    \* ... recovered under the wrong seed
     [] kd = "dup16"  -> [Plain(n, t, 16, 16, 0) EXCEPT !.bseed = 7]                  \* the same aggregated triple twice ...
     [] kd = "dup16L" -> LET mb == [Plain(n, t, 16, 16, 0) EXCEPT !.bseed = 7] IN [mb EXCEPT !.v.label = 1]   \* ... the second in an altered context
     [] kd = "vn"   -> LET mb == Plain(n, t, 1, 1, 0) IN [mb EXCEPT !.v.n = 2 * n]   \* only the verifier-side bit length is raised
@@ -224,6 +239,13 @@ FamBatch ==
   \* the same aggregated triple twice in a row, the second time in another context; and honest runs of it
   \cup { ScenF(ms, "VerifyOnly", NoSkew, FALSE, <<Kind(4, 1, "v1")>>) :
           ms \in { <<Kind(4, 1, "dup16"), Kind(4, 1, "dup16L")>>, <<Kind(4, 1, "dup16"), Kind(4, 1, "dup16")>>, <<Kind(4, 1, "v1"), Kind(4, 1, "dup16"), Kind(4, 1, "dup16L")>> } }
+  \* the same triple twice, the second copy with an altered response scalar (all points equal, responses different)
+  \cup { ScenF(ms, "VerifyOnly", NoSkew, FALSE, <<Kind(4, 1, "v1")>>) :
+          ms \in { <<Kind(4, 1, "dup"), Kind(4, 1, "dupX")>>, <<Kind(4, 1, "dupX"), Kind(4, 1, "dup")>>, <<Kind(4, 1, "v1"), Kind(4, 1, "dup"), Kind(4, 1, "dupX")>> } }
+  \* the same seeded triple twice in a row, the second time in another context
+  \cup { ScenF(ms, mode, NoSkew, FALSE, <<Kind(4, 1, "v1")>>) :
+          ms \in { <<Kind(4, 1, "dupS"), Kind(4, 1, "dupSL")>>, <<Kind(4, 1, "dupS"), Kind(4, 1, "dupS")>>, <<Kind(4, 1, "v1"), Kind(4, 1, "dupS"), Kind(4, 1, "dupSL")>> },
+          mode \in Modes }
   \* full chunks of heavily aggregated members (the final check of one chunk then has well over 8192 terms)
   \cup { ScenF(<<Kind(nk[1], 1, nk[2]), Kind(nk[1], 1, nk[2])>>, "VerifyOnly", NoSkew, FALSE, <<Kind(nk[1], 1, nk[2])>>) : nk \in {<<2, "v32">>, <<1, "v64">>} }
   \cup { ScenF(Mem([k |-> k, pt |-> 2, a |-> 0, ka |-> "xs", b |-> 0, kb |-> "xs"], <<4, 1>>), "VerifyOnly", sk, FALSE, <<Kind(4, 1, "v1")>>) : k \in {1, 2, MaxBatch + 1}, sk \in Sk }
@@ -241,13 +263,17 @@ FamRecover ==
       \* seeds in every order inside one batch: two seeds, each on the prover's and on the verifier's side, at every position
       SeedMix == { ScenF([x \in 1..Len(ks) |-> Kind(8, t, ks[x])], mode, NoSkew, FALSE, <<Kind(8, t, "v1")>>) :
                      ks \in UNION { [1..k -> {"v1s", "v1t", "v1st", "v1ts"}] : k \in 2..(IF Quick THEN 3 ELSE 4) }, t \in {1, 2}, mode \in Modes }
+      \* one output listed several times with different candidate seeds (right, wrong, right ...): each copy is recovered under ITS seed
+      Cand == { ScenF([x \in 1..Len(ks) |-> Kind(8, t, ks[x])], mode, NoSkew, FALSE, <<Kind(8, t, "v1")>>) :
+                  ks \in { <<"dupS", "dupSw">>, <<"dupSw", "dupS">>, <<"dupS", "dupSw", "dupS">>, <<"dupS", "dupS", "dupSw">>, <<"v1", "dupS", "dupSw">> },
+                  t \in {1, 3}, mode \in Modes }
       \* a blinding vector with zero components (all of them, for the one commitment)
       Zb == { One([[Member(n, t, 1, 1, "mid", vs, 1, "none", "none", 1, ps_seed, 0, "chacha") EXCEPT !.v.seed = vs2] EXCEPT !.zb = 1], mode) :
                 n \in {8, 64}, t \in {1, 2, 6}, vs \in {"zero", "mid"}, ps_seed \in {0, 1}, vs2 \in {0, 1, 2}, mode \in Modes }
       \* seeds with special VALUES (classes 5, 6, 7 = the zero scalar, one, the largest canonical scalar): a seed is any scalar
       Special == { One([Member(n, t, 1, 1, "mid", "max", 1, "none", "none", 1, ps_seed, 0, "chacha") EXCEPT !.v.seed = vs], mode) :
                      n \in {8, 64}, t \in {1, 6}, ps_seed \in {5, 6, 7}, vs \in {0, 1, 5, 6, 7}, mode \in Modes }
-  IN {s \in Single : s.members[1].n > 1 \/ s.members[1].mut.kind = "none"} \cup Mix \cup SeedMix \cup Zb \cup Special
+  IN {s \in Single : s.members[1].n > 1 \/ s.members[1].mut.kind = "none"} \cup Mix \cup SeedMix \cup Cand \cup Zb \cup Special
 
 (***************************************************************************************************)
 (* capacity (C12)                                                                                    *)
